@@ -911,6 +911,8 @@ pub enum ConstsError {
         "unable to add consts for policy {computation_id}. state must be Validate, SendingConsts or SendingConstsCompleted but is {state}"
     )]
     InvalidState { state: String, computation_id: Uuid },
+    #[error("constants for policy {computation_id} from unknown party {from}")]
+    UnknownSender { from: usize, computation_id: Uuid },
 }
 
 impl<B, C> PolicyState<B, C>
@@ -924,6 +926,19 @@ where
         consts_request: ConstsRequest,
         ret: Ret<ConstsError>,
     ) -> ControlFlow<(), Self> {
+        // The sender index comes from the remote party. An entry for a party that does not take
+        // part would make the number of received constants disagree with the program's
+        // dependencies forever. Once a policy is accepted there is one channel per participant.
+        if !self.channel_senders.is_empty() && consts_request.from >= self.channel_senders.len() {
+            ret_err(
+                ret,
+                ConstsError::UnknownSender {
+                    from: consts_request.from,
+                    computation_id: consts_request.computation_id,
+                },
+            );
+            return ControlFlow::Continue(self);
+        }
         match mem::take(&mut self.state_kind) {
             state @ (PolicyStateKind::Validated { .. } | PolicyStateKind::SendingConsts { .. }) => {
                 self.state_kind = state;
